@@ -75,6 +75,7 @@ static int g_napicnt;
 static int g_call_faults;          /* faults injected during the current API call */
 static int g_rep_faults;           /* faults injected during the current repetition */
 static unsigned g_replay_mask = ~0u;
+static int g_replay_anyinst;          /* blame runs: first call of that API function that gets there */
 static int g_frec_used[MAX_FREC];
 static struct { char sys[24]; int n; } g_percall[24];
 static int g_npercall;
@@ -133,7 +134,7 @@ int __wrap_mc_choose(int n, enum mc_kind kind, const char *label)
     for (int i = 0; i < g_nfrec; i++) {
         if (!(g_replay_mask & (1u << i)) || g_frec_used[i])
             continue;
-        if (g_frec[i].nth != nth || g_frec[i].inst != g_cur_inst || strcmp(g_frec[i].sys, sys) != 0 ||
+        if (g_frec[i].nth != nth || (!g_replay_anyinst && g_frec[i].inst != g_cur_inst) || strcmp(g_frec[i].sys, sys) != 0 ||
             strcmp(g_frec[i].api, g_cur_api) != 0 || g_frec[i].alt >= n)
             continue;
         g_frec_used[i] = 1;
@@ -614,7 +615,9 @@ static struct xcm_socket *do_accept(struct xcm_socket *server, enum bad bad, str
             return sreg(s);
         check_errno_on_failure("xcm_accept_a", e);
         if (g_call_faults) {
-            if (fault_retries++ >= 1)
+            /* a blocking accept is not repeated: the failed call may have consumed the connection request and the
+               single-threaded driver would wait for ever */
+            if (fault_retries++ >= 1 || g_blocking)
                 break;
             continue;
         }
@@ -1532,7 +1535,9 @@ static void scenario(const char *params)
             files_snapshot(&b_files);
             int b_stray = env_stray_closes();
             rep_begin(M_REPLAY, 1u << i, 14 + i);
+            g_replay_anyinst = 1;
             body();
+            g_replay_anyinst = 0;
             g_mode = M_PASS;
             mc_count(2, 1);
             struct verd one;
